@@ -869,6 +869,7 @@ _REC = {}
 class _Trace:
     log = []
     projs = []
+    hists = []  # (point index, history of b0.power asked through the DatabaseInterface mid-run)
     arm = None
     A0 = A1 = b0 = None
 
@@ -894,6 +895,13 @@ def _rec_classes():
                 t.A1.moveTo(l0)
                 self.r.core.sort()
             t.projs.append(proj(self.r))
+            if t.arm is None and hook == "EOC" and self.name == "recB":
+                # observer inside the run: history through the interface wrapper (adds the live value)
+                try:
+                    h = self.o.getInterface("database").getHistory(t.b0, ["power"])
+                    t.hists.append((idx, [[int(k[0]), int(k[1]), cv(v)] for k, v in h["power"].items()]))
+                except Exception as e:
+                    t.hists.append((idx, "raised %r" % (e,)))
             if t.arm == idx:
                 raise RuntimeError("injected fault at point %d %s" % (idx, t.log[-1]))
 
@@ -965,7 +973,7 @@ def _mk_operator(nC, bs, tight, seed, **over):
     cs = build.settings(nCycles=nC, burnSteps=bs, tightCoupling=tight, loadingFile="bp.yaml", cycleLength=10.0, **over)
     r = build.reactor(spec, cs, seed=seed)
     t = _Trace
-    t.log, t.projs, t.arm = [], [], None
+    t.log, t.projs, t.hists, t.arm = [], [], [], None
     assems = sorted(r.core, key=lambda a: a.p.serialNum)
     t.A0, t.A1 = assems[0], assems[1]
     t.b0 = t.A0[0]
@@ -1021,6 +1029,19 @@ def run_fault(case):
                 vl.append(("fault-free-raises", "%s: the fault-free run raised %r" % (what, raised)))
             elif t.log != pts:
                 vl.append(("fault-free-schedule", "%s: interaction points of the real run differ from the reference schedule: first difference at %s" % (what, next((i, a, b) for i, (a, b) in enumerate(itertools.zip_longest(t.log, pts)) if a != b))))
+            else:
+                # DatabaseInterface.getHistory asked at every end of cycle: the steps written so far with
+                # the value b0 had at each write (it was moved and the core re-sorted at every BOC),
+                # the live step with the live value
+                sb0 = str(int(t.b0.p.serialNum))
+                for idx, rows in t.hists:
+                    now = (pts[idx][2], pts[idx][3])
+                    exp = [[k[0], k[1], t.projs[w]["blocks"][sb0]["power"]] for w, k in writes if w < idx and k[2] == "" and k[:2] != now]
+                    exp.append([now[0], now[1], t.projs[idx]["blocks"][sb0]["power"]])
+                    if rows != exp:
+                        vl.append(("midrun-history", "%s: DatabaseInterface.getHistory(block, ['power']) asked in recB.interactEOC of cycle %d returned %s, expected %s" % (what, now[0], rows, exp)))
+                        break
+                res["nhist"] = len(t.hists)
             done = writes
             expect_ok = True
             errkey = None
@@ -1210,6 +1231,7 @@ def run(ctx):
     for c, r in zip(cfgs, free):
         ctx.add_violations(r["viols"])
         ctx.count("fault/fault-free runs")
+        ctx.count("fault/mid-run history queries checked", r.get("nhist", 0))
         if r["viols"]:
             continue
         for i in range(len(r["points"])):
@@ -1287,7 +1309,7 @@ def run(ctx):
     ctx.coverage["exhaustive"] = False  # depth-bounded: no closure for a database that only grows
     ctx.assumptions += [
         "Part A: 3-assembly (thorough also 7-assembly) full-symmetry hex core from generated blueprints; cycle/node from {(0,0),(0,1),(1,0),(9,9),(10,0),(99,99)}; labels from {none, EOL, x}; history depth as reported per search",
-        "Part A 'por' searches: in-memory mutations commute with each other and with a time advance and are idempotent between two writes, so one order is explored (the thorough tier's 'full' search explores all orders and checks the commutation through the differential oracle)",
+        "Part A 'por' searches (partial-order reduction): in-memory mutations commute with each other and with a time advance, so between two writes each mutation kind is applied at most once, in one fixed order, before any time advance (the thorough tier's 'full' search explores all orders and repetitions to depth 4 and checks the commutation through the differential oracle)",
         "snapshot state is compared on a projection (cycle, node, keff, per assembly: location, numMoves; per block: location, power, mgFlux, two never-set parameters), identity by serial number; everything else stored is compared as bytes against the digest taken right after the write (full round-trip fidelity is C04/C05's subject)",
         "array parameters have the same shape on all blocks (history of jagged columns is documented as unsupported); 'location' histories are asked for assemblies only",
         "when a labelled and an unlabelled snapshot share (cycle,node), a history without explicit steps may return either value for that step",
